@@ -213,3 +213,76 @@ def vec_binop(interp, opn, a, b, node):
 
 
 E.HOOKS["binop"].append(vec_binop)
+
+
+# ---- point-wise fallback for vectors that are not polynomials in base vectors (powers with real exponents, logs, floors) ----
+
+def _pw_view(interp, x):
+    """(length | None, at(k) -> scalar Value) for a numeric vector or a scalar"""
+    if isinstance(x, VList) and isinstance(x.content, SymSeq):
+        return x.content.length, x.content.at
+    if isinstance(x, (VInt, VReal, VBool)):
+        return None, (lambda k: x)
+    return None
+
+
+def pointwise(interp, length, at, like_int=False):
+    v = VList(SymSeq(length, at, T_RealT(np=True) if not like_int else T_IntT(np=True)), "ndarray")
+    v.poly = None
+    v.pointwise = True
+    return interp.born(v)
+
+
+def pw_binop(interp, op, a, b, node):
+    va, vb = _pw_view(interp, a), _pw_view(interp, b)
+    if va is None or vb is None:
+        return None
+    length = va[0] if va[0] is not None else vb[0]
+    if length is None:
+        return None
+    return pointwise(interp, length, lambda k: interp.binop(op, va[1](k), vb[1](k), node))
+
+
+_poly_binop = vec_binop
+
+
+def vec_binop2(interp, opn, a, b, node):
+    is_vec = lambda x: isinstance(x, VList) and (x.kind == "ndarray" or interp.spec_mode) and isinstance(x.content, SymSeq) \
+        and isinstance(getattr(x.content, "elem_kind", None), (T_IntT, T_RealT))
+    if not (is_vec(a) or is_vec(b)):
+        return None
+    nopoly = lambda x: is_vec(x) and getattr(x, "pointwise", False)
+    if not (nopoly(a) or nopoly(b)):
+        r = _poly_binop(interp, opn, a, b, node)
+        if r is not None:
+            return r
+    import ast as _ast
+    op = getattr(_ast, opn)()
+    return pw_binop(interp, op, a, b, node)
+
+
+E.HOOKS["binop"].remove(vec_binop)
+E.HOOKS["binop"].append(vec_binop2)
+
+
+def structural_sum(interp, v):
+    """np.sum of a point-wise defined vector: an uninterpreted symbol named by the defining term at a canonical index
+    (so the same expression over the same data has the same sum on the code side and on the spec side)"""
+    import hashlib
+    t = v.content.at(z3.Int("k!canon")).term
+    key = hashlib.sha1((z3.simplify(t).sexpr() + "|" + z3.simplify(v.content.length).sexpr()).encode()).hexdigest()[:12]
+    return z3.Const(f"Sum[{key}]", z3.RealSort() if t.sort() == z3.RealSort() else z3.IntSort())
+
+
+_vec_sum_poly = vec_sum
+
+
+def vec_sum2(interp, v):
+    if isinstance(v, VList) and getattr(v, "pointwise", False):
+        s = structural_sum(interp, v)
+        interp.ctx.assumed.add("extern:numpy.sum of a point-wise defined vector is an uninterpreted function of the defining expression")
+        return VReal(s, True) if s.sort() == z3.RealSort() else VInt(s, True)
+    return _vec_sum_poly(interp, v)
+
+
+vec_sum = vec_sum2
